@@ -211,6 +211,14 @@ theorem negotiation_compatible (o : Offer) (x : AcceptArgs) (y : RAcceptArgs) (r
     exact compat_core _ y hg.2.1 hg.2.2 (by simpa [AcceptArgs.on, Offer.normalize, Offer.guard] using hg.1)
   · cases h
 
+/-- the hypotheses of `negotiation_compatible` are satisfiable by non-trivial lattice points: the U3 input (server
+override), a client override, and a fully parameterised negotiation all pass the guards -/
+example : (negotiate ⟨true, true, false, 0⟩ ⟨false, 0, some true, some 10, none⟩ ⟨none, none, none⟩).isSome = true
+    ∧ (negotiate ⟨true, true, false, 0⟩ ⟨false, 12, none, none, none⟩ ⟨some true, some 9, some 1⟩).isSome = true
+    ∧ (negotiate ⟨false, true, true, 11⟩ ⟨true, 10, some true, some 9, some 9⟩ ⟨some true, some 10, none⟩).isSome = true
+    ∧ (negotiate ⟨true, false, true, 11⟩ ⟨false, 0, some false, none, none⟩ ⟨none, none, none⟩).isSome = false := by
+  decide +kernel
+
 /-- **same parameters on both ends when no override is given** (`window_bits`/`no_context_takeover` left `None`
 on both sides) -/
 theorem negotiation_equal_of_no_override (o : Offer) (x : AcceptArgs) (y : RAcceptArgs) (r : Negotiated)
@@ -586,7 +594,7 @@ example :
   obtain ⟨r', h⟩ := this.2
   rw [h]; rfl
 
-/-- `headerOk` is what makes the direction compatible requirement necessary: an inflater that forgets its context
+/-- the requirement `dirCompatible` of `lossless` is necessary: an inflater that forgets its context
 while the deflater keeps it loses the second message (toy codec; `decNct` without `encNct`) -/
 theorem incompatible_context_loses_data :
     (rxAll (Rx.init toy ⟨false, true, false, 15, 15, 8⟩)
